@@ -40,6 +40,11 @@ def check_ideal(case, ctx):
     ctx.close('C20.ideal/V-from-P', eos.get_V(T=T, P=P2, n=n), V * k, rtol=1e-12)
     T2 = eos.get_T(V=V, P=P, n=n * k)
     ctx.close('C20.ideal/n-from-T', eos.get_n(V=V, P=P, T=T2), n * k, rtol=1e-12)
+    # documented defaults: one mole, 298.15 K, 1 bar
+    V1 = eos.get_V(T=T, P=P, n=1.)
+    ctx.close('C20.ideal/defaults:n', [eos.get_V(T=T, P=P), eos.get_P(T=T, V=V1), eos.get_T(V=V1, P=P)], [V1, P, T], rtol=1e-12)
+    ctx.close('C20.ideal/defaults:T,P', [eos.get_V(n=n), eos.get_V(T=T, n=n), eos.get_V(P=P, n=n)],
+              [eos.get_V(T=298.15, P=1.0, n=n), eos.get_V(T=T, P=1.0, n=n), eos.get_V(T=298.15, P=P, n=n)], rtol=1e-12)
 
 
 # ---------------------------------------------------------------------------
@@ -111,6 +116,10 @@ def check_vdw(case, ctx):
 
     V = eos.get_V(T=T, P=P, n=n, gas_phase=gas)
     Vm = V / n
+    # documented defaults: one mole, the gas-like root
+    ctx.close('C20.vdw/defaults', [eos.get_V(T=T, P=P, gas_phase=gas), eos.get_V(T=T, P=P, n=n), eos.get_Vm(T=T, P=P)],
+              [eos.get_V(T=T, P=P, n=1., gas_phase=gas), eos.get_V(T=T, P=P, n=n, gas_phase=True),
+               eos.get_Vm(T=T, P=P, gas_phase=True)], rtol=1e-13)
     # --- Vm is a root of P V^3 - (P b + R T) V^2 + a V - a b ---------------
     terms = [P_SI * Vm ** 3, -(P_SI * b + R * T) * Vm ** 2, a * Vm, -a * b]
     scale = sum(abs(t) for t in terms)
